@@ -64,6 +64,10 @@ CLAIMED = {
    text="DeepONet.tla states the contraction law Out[i][j][c] = sum_k B[i][c][k] T[j][c][k] on OBSERVED branch/trunk features, functional consistency of the features across batch compositions and branch-input forms, the fix_input history, and fast == plain (outputs, first and second input derivatives, parameter gradients). Integer networks make every quantity an exact integer; TLC enumerates 48 configurations x 7 batches and decides every recorded trace.",
    note="Trusted: TLC; integer weights -2..2 with Identity/Square activations in float64 (exact). Bounded: output dim <= 2, <= 3 neurons per component, hidden <= (3,2), 1-3 functions x 1-3 locations. The FunctionSet form of the branch input is not driven.",
    technique="TLA+ laws on observed integer features + TLC trace validation; configurations enumerated by TLC", ref="5 C09"),
+ "C20": dict(
+   text="Fourier.tla defines circular shifts and grid refinement as index maps on recorded fields and the laws layer(Shift(u,s)) = Shift(layer(u),s), coarse/fine agreement at shared nodes for band-limited input, and input immutability; MC_Fourier model-checks that the layer's mode padding/truncation bookkeeping is a diagonal frequency map for all spectrum lengths and mode counts. TLC enumerates 1-D and 2-D layer / FNO configurations; real layers run on random fields and every recorded field pair is decided by TLC in fixed point.",
+   note="Trusted: TLC; fixed point 2^-12 with tolerance 6 units; torch.roll is used only to build the shifted INPUT, which TLC re-checks against the recorded input. Bounded: d in {1,2}, N <= 12 per axis, <= 3 channels, modes <= 9, 2-layer FNO with Tanh; batch-norm variant excluded.",
+   technique="TLA+ index-map laws on recorded fixed-point fields (TLC trace validation) + TLC model check of the mode bookkeeping", ref="5 C20"),
 }
 PENDING_REASON = "check not built yet in this round (design in DESIGN.md section 5); not claimed"
 
